@@ -175,7 +175,7 @@ struct Ev {
 // --------------------------------------------------------------------------- decisions
 enum ActK : uint8_t { A_NONE, A_CANCEL, A_CHANGE, A_CANCEL_CHANGE, A_CHANGEW, A_CANCEL_CHANGEW, A_SUCCEED, A_FAIL, A_SUCCEED_ID, A_FAIL_ID, A_PLAN_CHANGE, A_PLAN_CHANGEW, A_PLAN_CLEAR, A_PLAN_REMOVE,
 	// composite decisions: several actions in one callback invocation
-	A_CHANGE_CANCEL, A_CHANGE2, A_FAIL_SUCCEED, A_SUCCEED_FAIL, A_SUCCEED_CHANGE, A_CHANGE_SUCCEED, A_CHANGEW_CHANGE, A_CHANGE_CHANGEW };
+	A_CHANGE_CANCEL, A_CHANGE2, A_FAIL_SUCCEED, A_SUCCEED_FAIL, A_SUCCEED_CHANGE, A_CHANGE_SUCCEED, A_CHANGEW_CHANGE, A_CHANGE_CHANGEW, A_CANCEL2 };
 struct Act { uint8_t k, a, b, pv; };
 
 enum MenuFlag : unsigned {
@@ -529,6 +529,7 @@ inline void visit_guard(C& c, uint8_t sid, uint8_t inj, uint8_t meth, bool thiso
 	case A_CANCEL_CHANGE: do_cancel(c, sid, inj, meth); do_change(c, sid, inj, meth, a.a, 0); break;
 	case A_CANCEL_CHANGEW: do_cancel(c, sid, inj, meth); do_change(c, sid, inj, meth, a.a, a.pv); break;
 	case A_CHANGE_CANCEL: do_change(c, sid, inj, meth, a.a, 0); do_cancel(c, sid, inj, meth); break;
+	case A_CANCEL2: do_cancel(c, sid, inj, meth); do_cancel(c, sid, inj, meth); break;
 	default: perform_full(c, a, sid, inj, meth); break;
 	}
 }
